@@ -228,3 +228,9 @@ def soundness_problems(case: Any, run: Run, blocks: List[Any], ctx_of: Any) -> L
             if not ctx.max_fee_unknown and top > ctx.max_fee:
                 out.append(("fee-above-bound", {"block": line, "fee": top, "max_fee": ctx.max_fee}))
     return out
+
+
+def can_fall_off_end(lines: Any) -> bool:
+    """True iff control can reach the end of the program text (approval then depends on the value
+    left on the stack, which is neither an asserted nor a branched-on condition)."""
+    return not lines or lines[-1].op not in ("return", "err", "b", "retsub")
